@@ -189,7 +189,8 @@ prop("C12", [
     dict(engine="kani", sets=["dhcp_flag", "net_packet"]),
     dict(engine="verus", unit="dhcpparse", fns=["parse", "parse_options", "null_terminated"]),
     dict(engine="verus", unit="dhcpser"),
-], explanation="DHCP option encoder == RFC 2132/3396 encoding (split at 255, zero-length kept) for every table, and its decoding by dec_opts gives back the table (lemma); broadcast flag over all 65536 values; one's-complement fold complete over all u32 sums, word summation bounded; DHCP decoder == RFC decoding spec (dec_opts) for all byte strings")
+    dict(engine="verus", unit="frame"),
+], explanation="Ethernet/IPv4/UDP frame builder: bytes == eth ++ ip_hdr ++ udp_hdr ++ payload with RFC fields, both checksums computed over the right octets and verifying (lemmas), destination = limited broadcast iff broadcast bit; DHCP option encoder == RFC 2132/3396 encoding (split at 255, zero-length kept) for every table, and its decoding by dec_opts gives back the table (lemma); broadcast flag over all 65536 values; one's-complement fold complete over all u32 sums, word summation bounded; DHCP decoder == RFC decoding spec (dec_opts) for all byte strings")
 
 
 # ---------------------------------------------------------------------------------------------
